@@ -228,10 +228,32 @@ func (c *Ctx) CheckProperty(id string) (*Result, error) {
 	}
 
 	// vacuity failures are failures of the check itself
+	// A single unreachable return is reported as a note, not as a violation: it is either dead code in the repository
+	// (e.g. an "if err != nil" after a callee that never fails) or a contradiction among the assumptions, and the
+	// generator cannot tell which. A function none of whose returns is reachable, or whose preconditions are
+	// unsatisfiable, is a failure of the check.
+	perFunc := map[string][2]int{} // func -> {return covers, unreachable ones}
 	for _, v := range res.Vacuity {
-		if v.Status == "failed" {
-			res.Obls = append(res.Obls, &Obl{ID: v.ID, Engine: v.Engine, Kind: "vacuity", Func: v.Func, Text: v.Text, Status: "failed", Reason: v.Reason})
+		if strings.Contains(v.ID, "/vacuity:return-reachable#") {
+			x := perFunc[v.Func]
+			x[0]++
+			if v.Status == "failed" {
+				x[1]++
+			}
+			perFunc[v.Func] = x
 		}
+	}
+	for _, v := range res.Vacuity {
+		if v.Status != "failed" {
+			continue
+		}
+		if strings.Contains(v.ID, "/vacuity:return-reachable#") {
+			if x := perFunc[v.Func]; x[1] < x[0] {
+				notes = append(notes, "E1 "+v.Func+": unreachable under the active assumptions (dead code, or contradictory assumptions - review): "+v.Text)
+				continue
+			}
+		}
+		res.Obls = append(res.Obls, &Obl{ID: v.ID, Engine: v.Engine, Kind: "vacuity", Func: v.Func, Text: v.Text, Status: "failed", Reason: v.Reason})
 	}
 	if len(res.Obls) == 0 {
 		res.Obls = append(res.Obls, &Obl{ID: id + "/no-obligations", Engine: "driver", Kind: "vacuity", Status: "failed", Text: "the check generates at least one obligation", Reason: "zero obligations generated"})
